@@ -528,6 +528,42 @@ def x86ni_round_key_chains(chk):
     chk.floor('x86ni round-key chains', n, 50)
 
 
+def bitsliced_ctr_lane_counters(chk):
+    """Bitsliced AES/CTR processes 2 (aes_ct) or 4 (aes_ct64) counter blocks per pass: lane k carries the big-endian encoding of cc + k,
+    i.e. br_swap32 of the *sum* - adding to the already swapped word loses the carry out of the low byte.  Rule: in
+    br_aes_ct_ctr_run / br_aes_ct64_ctr_run the counter words stored into the lane array are br_swap32(cc + k) for k = 0 .. lanes-1,
+    each k once."""
+    R = 'bitsliced-ctr-lane-counters'
+    n = 0
+    for src, fn, lanes in (('src/symcipher/aes_ct_ctr.c', 'br_aes_ct_ctr_run', 2), ('src/symcipher/aes_ct64_ctr.c', 'br_aes_ct64_ctr_run', 4)):
+        u = build.load_unit(src)
+        F = next((irf.Func(u, f) for f in u['functions'] if f['name'] == fn and f.get('blocks')), None)
+        if F is None:
+            raise AnalysisBroken('%s vanished' % fn)
+        sw = F.calls('br_swap32')
+        ks = []
+        for c in sw:
+            a = F.strip_casts(c['ops'][0])
+            k = None
+            if a['k'] == 'i' and F.insts[a['v']]['op'] == 'add' and F.insts[a['v']]['ops'][1]['k'] == 'c' and F.insts[F.insts[a['v']]['ops'][0]['v']]['op'] == 'phi' \
+                    if a['k'] == 'i' and F.insts[a['v']]['op'] == 'add' and F.insts[a['v']]['ops'][0]['k'] == 'i' else False:
+                k = F.insts[a['v']]['ops'][1]['v']
+            elif a['k'] == 'i' and F.insts[a['v']]['op'] == 'phi':
+                k = 0
+            # the swapped value must be what is stored (directly) into the lane array
+            stored = any(i['op'] == 'store' and F.strip_casts(i['ops'][0]) == {'k': 'i', 'v': c['id']} for i in F.insts.values())
+            if k is not None and stored:
+                ks.append(k)
+        n += 1
+        inst = '%s: the %d lane counters are br_swap32(cc + k), k = 0..%d' % (fn, lanes, lanes - 1)
+        if sorted(ks) == list(range(lanes)):
+            chk.ok(R, inst, F.where(sw[0]) if sw else src)
+        else:
+            chk.violation(R, inst, F.where(sw[0]) if sw else F.where(), 'lane counters derived by br_swap32(cc + k) for k in %s only: another lane is computed on the byte-swapped '
+                          'word, which drops the carry when the low counter byte wraps' % sorted(ks), key='%s %s' % (R, fn))
+    chk.floor('bitsliced ctr implementations', n, 2)
+
+
 def x86ni_counter_lanes(chk):
     """AES-NI CTR processes four blocks at a time: the four counter blocks differ in their last 32 bits, which hold the *big-endian*
     encoding of cc, cc+1, cc+2, cc+3.  The increment must happen before the byte swap (a carry out of the low byte has to reach the
@@ -783,6 +819,7 @@ def run(tier):
     x86ni_counter_lanes(chk)
     x86ni_cbcdec_iv(chk)
     x86ni_round_key_chains(chk)
+    bitsliced_ctr_lane_counters(chk)
     from .. import lints as _l
     _l.tail_copy_from_running_pointer(chk, ('src/symcipher/', 'src/hash/'))
     _l.limb_split_consistent(chk, ['src/symcipher/'])
